@@ -226,7 +226,7 @@ def check_program(part, pool_, source, tags, switches, label, skip_runtimes=()):
 DEPTH_KINDS = ("def", "class", "if", "mixed")
 DEPTHS_QUICK = (8, 16, 28)
 DEPTHS_THOROUGH = (4, 8, 12, 16, 20, 24, 28, 34, 40)
-# F36: the text for 24 or more nested def statements (32 classes; about 46 with unparser=oneliner)
+# F53: the text for 24 or more nested def statements (32 classes; about 46 with unparser=oneliner)
 # overflows the parser stack of Python 3.8 (MemoryError), although 3.8 compiles the source: above
 # this depth runtime 3.8 is left out for def/class nesting while the finding is open
 DEPTH_38_LIMIT = 16
